@@ -47,6 +47,13 @@ var drivers = []driver{
 		inputs: map[string]interface{}{"spin": true, "n": 0}, infinite: true, wantOut: "int:7", reset: map[string]interface{}{"spin": false}},
 	{name: "module-loop", src: "out := 0; m := import(\"mod\"); for spin { n = m.next(n) }; out = 7", mods: map[string]string{"mod": "export {next: func(x) { return (x+1)%3 }}"},
 		inputs: map[string]interface{}{"spin": true, "n": 0}, infinite: true, wantOut: "int:7", reset: map[string]interface{}{"spin": false}},
+	// loops made of unconditional jumps only (a jump to itself, two jumps at each other), also inside a function
+	{name: "bodyless-loop", src: "out := 0; if spin { for {} }; out = 7", inputs: map[string]interface{}{"spin": true},
+		infinite: true, wantOut: "int:7", reset: map[string]interface{}{"spin": false}},
+	{name: "continue-only-loop", src: "out := 0; if spin { for { continue } }; out = 7", inputs: map[string]interface{}{"spin": true},
+		infinite: true, wantOut: "int:7", reset: map[string]interface{}{"spin": false}},
+	{name: "bodyless-loop-in-func", src: "out := 0; f := func() { for {} }; if spin { f() }; out = 7", inputs: map[string]interface{}{"spin": true},
+		infinite: true, wantOut: "int:7", reset: map[string]interface{}{"spin": false}},
 	{name: "terminating", src: "out := a + 1", inputs: map[string]interface{}{"a": 41}, wantOut: "int:42", reset: map[string]interface{}{"a": 41}},
 	{name: "native-call", src: "out := len(arr) + a", inputs: map[string]interface{}{"arr": []interface{}{1, 2}, "a": 40}, wantOut: "int:42", reset: map[string]interface{}{"a": 40}},
 	{name: "runtime-error", src: "out := a + \"x\"", inputs: map[string]interface{}{"a": 1}, wantOut: "", reset: map[string]interface{}{"a": 1}},
@@ -482,7 +489,9 @@ func main() {
 			}
 			r.Set(fmt.Sprintf("driver/%s/observer=%v", d.name, observer), map[string]interface{}{"script": d.src, "states": res.States, "transitions": res.Transitions,
 				"executions": res.Executions, "terminal_states": res.Terminals, "max_depth": res.MaxDepth, "branching_states": res.Branching, "outcomes": res.Outcomes})
-			if res.Capped {
+			if vsched.Hung {
+				r.NotExhaustive("a thread never reached another scheduling point (reported as a violation); exploration stopped")
+			} else if res.Capped {
 				r.NotExhaustive(fmt.Sprintf("driver %s: state cap reached after %d states", d.name, res.States))
 			}
 			for _, m := range res.Internal {
